@@ -6,7 +6,7 @@ from .. import land
 
 LEVEL = 'fault_enumeration'
 ENGINE = 'SEQ+LAND'
-TECHNIQUE = 'exhaustive product of (worker class, init_state, number of child-side assignments, ending) executed on real workers, graceful terminate landing at every line-level point of the child (state read from the child at the landing instant), parent-side delay points in the remote frontend, and restart / re-creation chains'
+TECHNIQUE = 'exhaustive product of (worker class, init_state, number of child-side assignments, ending) executed on real workers, graceful terminate landing at every line-level point of the child (state read from the child at the landing instant), parent-side delay points in the remote frontend (delayed state message, 1 MiB state read slowly), and restart / re-creation chains including restarts of workers that are already dead'
 LEVEL_TEXT = ('every combination of the bounded input product is run on the real classes; for terminate endings one real run per landing point with the parent reading user_state while the child is held still (must be the initial value) and after death (must equal what the child held at the landing instant); chains of up to 3 restarts / re-creations must start from the last synchronised state')
 LEVEL_NOTE = 'state values are JSON-like (None, scalars, lists, dicts); one asynchronous event per run; thread kinds share memory with the parent, so the while-alive clause is judged for process and remote kinds only (as the statement says)'
 
